@@ -220,12 +220,12 @@ def forbidden_scan(chk):
 # ------------------------------------------------------------------------------------------------
 def parse_probe(path):
     meta = {"path": path, "id": os.path.splitext(os.path.basename(path))[0], "expect": None, "codes": [],
-            "twin": None, "run": None, "item": None, "rule": None, "note": ""}
+            "twin": None, "run": None, "item": None, "rule": None, "known": None, "note": ""}
     src = open(path).read()
-    for m in re.finditer(r"(?m)^//@\s*([a-z_]+)\s*:\s*(.*?)\s*$", src):
+    for m in re.finditer(r"(?m)^//@[ \t]*([a-z_]+)[ \t]*:[ \t]*(.*?)[ \t]*$", src):
         k, v = m.group(1), m.group(2)
         if k == "codes":
-            meta["codes"] = [c.strip() for c in v.split(",") if c.strip()]
+            meta["codes"] = [c.strip() for c in v.split(",") if c.strip() and c.strip().lower() != "none"]
         else:
             meta[k] = v
     meta["src"] = src
@@ -286,7 +286,7 @@ def run_probes(sub, host, only=None):
 
     def one(p):
         r = compile_probe(p["path"], host, outdir)
-        r.update({k: p[k] for k in ("id", "expect", "twin", "run", "item", "rule", "path")})
+        r.update({k: p[k] for k in ("id", "expect", "twin", "run", "item", "rule", "known", "path")})
         r["expected_codes"] = p["codes"]
         if r["accepted"] and p.get("run"):
             rc, out = run_exe(r["exe"])
